@@ -719,6 +719,9 @@ def check(tier):
                     docs = [trim]
                 elif c["files"] in ("zoo", "zoo_ascii_locale"):
                     docs = [zoo]
+                elif c["files"] == "empty_first":
+                    # a first document whose declaration lists are all empty, extended by a second one (the first must stay empty)
+                    docs = [{"metaData": {"version": "0.0.0"}, "requests": [], "notifications": [], "structures": [], "enumerations": [], "typeAliases": []}, zoo]
                 elif c["files"] == "zoo_twice":
                     # every key a merge could identify declarations by (name, typeName, method, absent typeName) collides
                     docs = [zoo, zoo]
